@@ -12,6 +12,7 @@
      24 `node_to_elements[*node]` / `mesh.node(idx)` out of range
      25 `indice_locks[e1]` out of range
      26 `CsMat::new`'s structure check (`unwrap` of new_checked)
+     27 slice `indices[start..end]` out of range in the final copy
 
    The element tables ([etype], [et_dimension], [et_node_count]) and the
    clauses that differ between the three functions ([dual_drops_edges],
@@ -34,6 +35,7 @@ Definition P_UNREACHABLE : N := 23.
 Definition P_NODE_OOB : N := 24.
 Definition P_ROW_OOB : N := 25.
 Definition P_CSMAT : N := 26.
+Definition P_COPY : N := 27.
 
 (* ---- sequencing of fallible steps, left to right as the iterators run ---- *)
 Fixpoint mapM {A B} (f : A -> res B) (l : list A) : res (list B) :=
@@ -247,15 +249,31 @@ Definition csmat_valid (size : nat) (indptr indices : list nat) (data : list N) 
   | None => false
   end.
 
+(* `indices[*start..*end]` <- neighbors: the slice bounds check, then
+   `copy_nonoverlapping(src, dst, end - start)` *)
+Definition copy_row (indices : list nat) (start stop : nat) (src : list nat) : res (list nat) :=
+  if (stop <? start) || (length indices <? stop) then Panic P_COPY
+  else Ok (firstn start indices ++ firstn (stop - start) src ++ skipn stop indices).
+
+(* `indptr.par_iter().zip(&indptr[1..]).zip(indice_locks).for_each(..)`: one copy per row,
+   into pairwise-disjoint ranges (performed here in row order) *)
+Fixpoint copy_rows (indices : list nat) (start : nat) (stops : list nat) (rows : list (list nat))
+  : res (list nat) :=
+  match stops, rows with
+  | stop :: t, r :: rs => bind (copy_row indices start stop r) (fun i => copy_rows i stop t rs)
+  | _, _ => Ok indices
+  end.
+
 Definition assemble (rows : list (list nat)) : res csr :=
-  let indptr := 0 :: prefix_sums 0 (map (@length nat) rows) in
+  let stops := prefix_sums 0 (map (@length nat) rows) in
+  let indptr := 0 :: stops in
   let size := length indptr - 1 in
-  (* `indices[start..end] <- neighbors` for consecutive ranges: the concatenation *)
-  let indices := concat rows in
+  let total := last indptr 0 in                       (* indptr[indptr.len() - 1] *)
+  bind (copy_rows (repeat 0 total) 0 stops rows) (fun indices =>
   let data := repeat ONE_BITS (length indices) in
   if csmat_valid size indptr indices data
   then Ok (mkCsr size size indptr indices data)
-  else Panic P_CSMAT.
+  else Panic P_CSMAT).
 
 Definition empty_csr : csr := mkCsr 0 0 [0] [] [].     (* CsMat::empty(CSR, 0) *)
 
